@@ -258,7 +258,13 @@ func (b *c20Build) runShards(r *core.Rec, n int, mk func(shard int) []string) {
 			if !b.syncFree {
 				sf = "0"
 			}
-			cmd.Env = append(os.Environ(), "C20_SYNCFREE="+sf, "C20_FRESH="+b.fresh, "C20_FRESHVAR="+b.freshVar, "GOMAXPROCS=1", "C20_STEP_BUDGET="+strconv.FormatInt(b.stepBudget, 10))
+			// the cooperative scheduler wants one P; the sequential passes get several, so that
+			// goroutines the library itself might start really run in parallel
+			procs := "4"
+			if args := mk(s); len(args) > 0 && args[0] == "sched" {
+				procs = "1"
+			}
+			cmd.Env = append(os.Environ(), "C20_SYNCFREE="+sf, "C20_FRESH="+b.fresh, "C20_FRESHVAR="+b.freshVar, "GOMAXPROCS="+procs, "C20_STEP_BUDGET="+strconv.FormatInt(b.stepBudget, 10))
 			var stderr bytes.Buffer
 			cmd.Stderr = &beatWriter{buf: &stderr, r: r}
 			outb, err := cmd.Output()
